@@ -149,7 +149,7 @@ PROPS = {
     "C07": {
         "level": "model_checking",
         "claim": "For valid encodings (all spec constraints assumed on symbolic content) of the selected shapes every strict prefix is Ok(None) for the blocking decoder and an eof error for "
-                 "the async decoder, the complete encoding decodes; trailing bytes are ignored (C06 scenarios run on frame ++ tail and require the same packet and exact consumption).",
+                 "the async decoder, the complete encoding decodes; validators (UTF-8, topic name, topic filter) are reached only with completely read fields of the frame (asserting valid-class stubs: a check that runs on a partly filled buffer is a reported failure, not a pruned path); trailing bytes are ignored (C06/C08 scenarios run on frame ++ tail and require the same packet and exact consumption).",
         "note": "end of stream inside a frame for the poll decoder is decided by the C05 steps (script 'end of stream here' at every position)",
         "functions": ["Packet::decode", "Packet::decode_async", "Error::is_eof", "ErrorV5::is_eof"],
         "bounds": {"quick": "shapes up to 14 bytes, every cut position", "thorough": "shapes up to 20 bytes"},
@@ -248,7 +248,7 @@ PROPS = {
         "level": "model_checking",
         "claim": "Framing is decided as an induction step over the packet count: (poll) for every stream position and transport script the real poll.rs on a generic header reports a total equal to the "
                  "bytes it consumed and never requests a byte beyond the frame, with one byte of the next packet present (incl. 3-6 byte headers and body-less packets); (blocking/async) on frame ++ 2 "
-                 "symbolic bytes of the next packet the async decoder consumes exactly the frame and both return the frame's packet; a fresh default state on an empty remainder reports eof / Ok(None).",
+                 "symbolic bytes of the next packet, whenever the frame satisfies every constraint of the specification for its shape, the blocking and the async decoder return a packet with the frame's field values and the async decoder has consumed exactly the frame (stated on the spec constraints, not on the strict decoder's verdict); a fresh default state on an empty remainder reports eof / Ok(None).",
         "note": "the step is decided per shape; 'any finite sequence' follows by induction on the number of packets (each step leaves the stream exactly at the next frame and the state is the default state)",
         "functions": ["GenericPollPacket::poll", "Packet::decode_async", "Packet::decode", "GenericPollPacketState::default"],
         "bounds": {"all": "C05 streams (bodies up to 4 bytes, headers up to 6 bytes) and the C06 shape list; sequences by induction, not by enumeration"},
